@@ -8,7 +8,7 @@ ID = "C18"
 COQ_DIR = "C18"
 RUN_MOD = "C18.Run"
 MODEL_TARGETS = ["C18/Run.vo"]
-PROOF_TARGETS = ["C18/Lemmas.vo", "C18/LemmasLadder.vo", "C18/LemmasCoord.vo", "C18/LemmasRange.vo"]
+PROOF_TARGETS = ["C18/Lemmas.vo", "C18/LemmasLadder.vo", "C18/LemmasCoord.vo", "C18/LemmasRange.vo", "C18/LemmasSession.vo"]
 PROPS = ["C18/Props.v"]
 ALLOWED_AXIOMS = []
 IMPL_TIMEOUT = 10.0
@@ -20,8 +20,16 @@ RULE = ("generated worksheets (harness-side mock of an openpyxl worksheet): 1-5 
         "duplicate titles, 0-3 leading blank rows (None or whitespace-only), blank/invalid cells, both end-of-table rules "
         "with an end row and trailing content, ladder sheets with 1-3 levels and runs of blanks over several rows, "
         "sheets wider than 26 columns (range groups across the Z/AA boundary; corpus: ZZ/AAA boundary, duplicate titles inside "
-        "the range group, ladder range cells of different rows, row 9/10).  Non-trivial = distinct case that yields at least "
-        "one object.")
+        "the range group, ladder range cells of different rows, row 9/10).  Sessions (cases k='sess', model Session.v): 2-5 "
+        "readings in ONE process of sheets that are read again, edited in place (same worksheet object), re-ordered by columns or "
+        "unrelated, with repeated cell texts and repeated rows, through iter_table / read_table / a shared XlsObjReadRules / shared "
+        "XlsRecordAttrReadRules / one rules dict shared by several classes, and through the TableReader mixin (read_list, iter_xls, "
+        "read_map) of class hierarchies (derived classes overriding ATTR_RULES, _ATTRS order/subset, _NUM_ID_ATTRS, or nothing; base "
+        "first, derived first, random order; unrelated classes), two generators advanced in turn (ladder readings in progress); "
+        "between the readings the caller edits in place values it has been given (list.append, set.add, dict[k]=v, d[k].append on "
+        "cell_list / cell_set / CellRangeDict / CellRangeSet / callable-default values, all of them or a subset, each with its own "
+        "marker); every object of every reading is observed when produced and again at the end of the session.  Non-trivial = "
+        "distinct case that yields at least one object (session: at least two readings that yield an object).")
 TRUSTED_BASE = [
     "gen/C18_Consts.v: CellBool/_CellReader value sets, origin markers, the 'blank first' and '*' literals are read from "
     "ak/xlsread.py by harness/props/c18.py:gen_consts (ast, fail-closed); the same extractor insists that get_attr_origin's "
@@ -31,17 +39,28 @@ TRUSTED_BASE = [
     "string, str(int)/str(bool), == and hash across int/bool/str/None, str and tuple ordering, stability of sorted(), dict "
     "insertion order (compared on every run by the correspondence check)",
     "the harness-side mock worksheet yields rectangular rows from A1 with openpyxl coordinates (column letters + 1-based row)",
+    "sessions: python's list.append / set.add / dict item assignment as mirrored by Session.mut_value; XlsObject.make_objects_map "
+    "is the reference for the map entry points (read_map / read_table_make_map must equal make_objects_map of the objects of the "
+    "modelled list reading of the same sheet: oracle signature map-reading, not modelled)",
 ]
 ASSUMPTIONS = [
     "cell values are None, str, int or bool (no float/datetime cells)",
     "worksheet rows are rectangular and start at A1 (as openpyxl's iter_rows() yields them); ragged rows are modelled "
     "(IndexError) but not claimed",
-    "default values are plain values (or callables returning them); one object class per table (iter_table/read_table)",
+    "default values are plain immutable values, or callables returning them or a fresh list; one object class per table "
+    "(iter_table/read_table/TableReader)",
+    "the TableReader mixin is read with the class attributes STOP_ON / LADDER_FORMAT at their defaults (iter_xls does not pass them "
+    "on: the mixin always reads with the default end rule and without ladder substitution)",
+    "an XlsTableReader object is used for one reading (a second iter_table on the same object fails its own assertion: "
+    "_ObjScrCellsMap.defaults_factories is never reset)",
 ]
 MODELLED = ("ak/xlsread.py: _CellReader/CellStr/CellInt/CellBool/CellList/CellSet, CellRangeDict/CellRangeSet, "
             "XlsObject.__init__/construct/get_attr_origin, XlsRecordAttrReadRules/XlsObjReadRules (rule shapes), "
-            "_ObjScrCellsMap.bind_titles_row/cells_from_row, XlsTableReader.iter_table; not modelled: incl_ws prefix, "
-            "make_objects_map/ensure_equal, TableReader mixin, several object classes per table")
+            "_ObjScrCellsMap.bind_titles_row/cells_from_row, XlsTableReader.iter_table; sessions (Session.v): a reading is a function "
+            "of the sheet and of the rules of THAT call (for TableReader.iter_xls/read_list: the ATTR_RULES, _ATTRS, _NUM_ID_ATTRS of "
+            "the class that was asked, default end rule, no ladder), in-place edits of a produced value change that value only; "
+            "not modelled: incl_ws prefix, make_objects_map/ensure_equal (reference of the map-reading oracle clause), several "
+            "object classes per table")
 
 
 class ExtractError(Exception):
@@ -416,12 +435,13 @@ def gen_sheet_case(rng, wide=False, force=None):
     known_cols = []     # (title, conv) of columns present in the sheet for plain attrs
     n_range = 0
     misuse = rng.random() < 0.04
+    kinds = force.get("kinds", CONV_KINDS)
     for i in range(n_attrs):
         r = rng.random()
         if i == 0 and not misuse:
             r = 0.0     # the first attribute must come from a cell (anchor)
         if r < 0.55:
-            cv = _conv(rng)
+            cv = _conv(rng, kinds)
             title = titles_pool.pop()
             ru = {"t": "plain", "col": title, "cv": cv}
             present = True
@@ -444,7 +464,7 @@ def gen_sheet_case(rng, wide=False, force=None):
             prev_range = next((x for x in rules if x["t"] == "range"), None)
             ru = {"t": "range", "dict": rng.random() < 0.5,
                   "cv": dict(prev_range["cv"]) if prev_range is not None and rng.random() < 0.85 else
-                  _conv(rng, ["bool", "int", "str", "bool", "list"] if rng.random() < 0.8 else CONV_KINDS)}
+                  _conv(rng, force.get("rkinds", ["bool", "int", "str", "bool", "list"]) if rng.random() < 0.8 else CONV_KINDS)}
             if rng.random() < 0.4:
                 ru["def"] = _default(rng)
             rules.append(ru)
@@ -591,17 +611,30 @@ def gen_cases(rng, tier):
             c["rows"][j] = c["rows"][j][:cut]
             c["ragged"] = True
             cases.append(c)
-    return cases
+    # sessions: several readings in one process, class hierarchies with the TableReader mixin, edits of produced values
+    sess = [gen_session_case(rng, "hier" if i % 2 else "alias") for i in range(1200 if big else 120)]
+    # spread evenly (a session costs about three single readings: keeps the Coq shards balanced)
+    stride = max(1, len(cases) // len(sess))
+    out = []
+    for i, c in enumerate(cases):
+        out.append(c)
+        if i % stride == stride - 1 and sess:
+            out.append(sess.pop())
+    return out + sess
 
 
 def search_cases(rng, tier):
     out = []
     for i in range(4000):
         out.append(gen_sheet_case(rng, wide=(i % 6 == 0), force={"ladder": True} if i % 3 == 0 else None))
+    for i in range(1500):
+        out.append(gen_session_case(rng, "hier" if i % 2 else "alias"))
     return out
 
 
 def kind(case):
+    if case.get("k") == "sess":
+        return "session-" + case.get("flavour", "?")
     parts = ["ladder" if case["ladder"] else "plain",
              "first" if case["stop"] == "blank first" else "all"]
     if any(r["t"] == "range" for r in case["rules"]):
@@ -672,7 +705,7 @@ def _mk_rules(xl, case):
                 rules[name] = None
             elif form == "callable":
                 dv = ru["def"]["v"]
-                rules[name] = (None, None, {"default_val": (lambda dv=dv: dv)})
+                rules[name] = (None, None, {"default_val": (lambda dv=dv: list(dv) if isinstance(dv, list) else dv)})
             else:
                 rules[name] = (None, None, {"default_val": ru["def"]["v"]})
         else:
@@ -690,30 +723,36 @@ def _res(f, *a, **kw):
         return ["err", SX.exc_name(e)]
 
 
+def _obs_obj(o, names, qkeys, with_origins=True):
+    """what a user can see of one produced object: every attribute value and every origin query"""
+    attrs = []
+    for name in names:
+        try:
+            a = {"v": _canon_value(getattr(o, name))}
+        except AttributeError:      # an object of another class than the one that was read
+            a = {"v": ["?", "no such attribute"]}
+        if with_origins:
+            a["o"] = _res(o.get_attr_origin, name)
+            a["ko"] = [_res(o.get_attr_origin, name, k) for k in qkeys]
+            a["kn"] = [_res(o.get_attr_origin, name, k, strict=False) for k in qkeys]
+        attrs.append(a)
+    it = {"attrs": attrs}
+    if with_origins:
+        it["unk"] = _res(o.get_attr_origin, "no_such_attribute")
+    return it
+
+
 def _read(xl, case, rows, ladder, with_origins=True):
     n = len(case["rules"])
-    cls = type("XlGen", (xl.XlsObject,), {"_ATTRS": [f"a{i}" for i in range(n)], "_NUM_ID_ATTRS": case["nid"]})
+    names = [f"a{i}" for i in range(n)]
+    cls = type("XlGen", (xl.XlsObject,), {"_ATTRS": names, "_NUM_ID_ATTRS": case["nid"]})
     ws = _Worksheet("sheet1", rows)
     items = []
     err = None
     try:
         rules = _mk_rules(xl, case)
         for o in xl.iter_table(ws, cls, rules, stop_on=case["stop"], ladder_format=ladder):
-            if o is None:
-                items.append(None)
-                continue
-            attrs = []
-            for i in range(n):
-                a = {"v": _canon_value(getattr(o, f"a{i}"))}
-                if with_origins:
-                    a["o"] = _res(o.get_attr_origin, f"a{i}")
-                    a["ko"] = [_res(o.get_attr_origin, f"a{i}", k) for k in case["qkeys"]]
-                    a["kn"] = [_res(o.get_attr_origin, f"a{i}", k, strict=False) for k in case["qkeys"]]
-                attrs.append(a)
-            it = {"attrs": attrs}
-            if with_origins:
-                it["unk"] = _res(o.get_attr_origin, "no_such_attribute")
-            items.append(it)
+            items.append(None if o is None else _obs_obj(o, names, case["qkeys"], with_origins))
     except BaseException as e:  # noqa
         if type(e).__name__ == "Hang":
             raise
@@ -723,6 +762,8 @@ def _read(xl, case, rows, ladder, with_origins=True):
 
 def impl_run(case):
     from ak import xlsread as xl
+    if case.get("k") == "sess":
+        return _run_session(xl, case)
     obs = _read(xl, case, case["rows"], case["ladder"])
     if case["ladder"] and _is_rect(case):
         # the property's second sentence: the same table with the "same as above" cells filled in, read plainly
@@ -746,6 +787,8 @@ def _c_cvals(vs):
 
 
 def _c_sval(v):
+    if isinstance(v, list):
+        return f"(VList {_c_strs(v)})"
     if v is None:
         return "VNone"
     if isinstance(v, bool):
@@ -772,11 +815,13 @@ def _c_rule(ru):
     return f"RRange {SX.cbool(ru['dict'])} {_c_conv(ru['cv'])} {SX.cbool('def' in ru)}"
 
 
-def _c_strs(l):
+def _c_strs(l):  # noqa: E741
     return "(@nil (list Z))" if not l else "[" + "; ".join(SX.cstr(s) for s in l) + "]"
 
 
 def coq_case(case, obs):
+    if case.get("k") == "sess":
+        return _coq_session(case)
     rows = "[" + "; ".join(_c_cvals(r) for r in case["rows"]) + "]" if case["rows"] else "(@nil (list cval))"
     rules = "[" + "; ".join(_c_rule(r) for r in case["rules"]) + "]" if case["rules"] else "(@nil rule)"
     return (f"Read {rows} {rules} {SX.cnat(case['nid'])} {SX.cstr(case['stop'])} "
@@ -845,6 +890,8 @@ def full_sx(case, obs):
 
 
 def expected_sx(case, obs):
+    if case.get("k") == "sess":
+        return _expected_session(case, obs)
     items, e = full_sx(case, obs)
     return SX.dumps([[[0] if not it else hash_sx(it[0]) for it in items], e])
 
@@ -969,6 +1016,8 @@ def _expected_run(titles, rules):
 def oracle(case, obs):
     if "__hang__" in obs:
         return [("hang", "read_table did not return")]
+    if case.get("k") == "sess":
+        return _oracle_session(case, obs)
     if case.get("ragged") or not _is_rect(case):
         return []       # outside the property's quantifier (openpyxl rows are rectangular)
     out = []
@@ -1032,7 +1081,9 @@ def oracle(case, obs):
                 raw_none = True
                 for ru in rules[:k]:
                     vals.append(_ref_attr_value(ru, filled[R], titles, run_cols))
-                    raw_none = raw_none and all(filled[R][c] is None for c, tt in enumerate(titles) if tt == ru["col"])
+                    # the column an attribute is read from is the LAST one with its title (col_names_ids)
+                    last = [c for c, tt in enumerate(titles) if tt == ru["col"]][-1:]
+                    raw_none = raw_none and all(filled[R][c] is None for c in last)
                 # XlsObject.construct: no object when the id cells are empty or the id values are all None
                 if not raw_none and any(v is not _UNKNOWN and v != ["n"] for v in vals):
                     add("spurious-none", f"row {R} gave None although its id attributes read {vals!r}")
@@ -1251,16 +1302,23 @@ def _legit_error(case, filled, t, titles, data_idx, n_items):
 
 
 def nontrivial(case, obs):
+    if case.get("k") == "sess":
+        return isinstance(obs, dict) and sum(1 for rd in obs.get("reads", []) if any(it is not None for it in rd["items"])) >= 2
     return isinstance(obs, dict) and any(it is not None for it in obs.get("items", []))
 
 
 def outcome(case, obs):
     if "__hang__" in obs:
         return "hang"
+    if case.get("k") == "sess":
+        return "sess:" + ("err" if any(rd["err"] for rd in obs["reads"]) else "ok")
     return f"{'err:' + obs['err'] if obs['err'] else 'ok'}:{min(len(obs['items']), 4)}{'+' if len(obs['items']) > 4 else ''}"
 
 
 def shrink_candidates(case):
+    if case.get("k") == "sess":
+        yield from _shrink_session(case)
+        return
     rows = case["rows"]
     # drop a row
     for i in range(len(rows) - 1, -1, -1):
@@ -1282,6 +1340,790 @@ def shrink_candidates(case):
         yield c
 
 
+# ------------------------------------------------------------------ sessions
+# Several readings in ONE process, through every entry point (iter_table, read_table, a shared XlsObjReadRules /
+# XlsRecordAttrReadRules, the TableReader mixin of a class hierarchy), on sheets that are re-read, edited in place or
+# re-ordered, with in-place modifications of values of the produced objects in between.  Every object of every
+# reading is observed when it is produced AND at the end of the session.  Model: coq/C18/Session.v.
+MARK = "†"
+MIXIN_VIAS = ("mx_list", "mx_iter")
+WHOLE_VIAS = ("table", "mx_list")
+FUNC_VIAS = ("iter", "table", "rr", "ar")
+
+
+def _step_rules(case, st):
+    """(attribute names in _ATTRS order, _NUM_ID_ATTRS, the rules in that order) that a read step must be read with:
+    the rules passed to the call, for the mixin the ATTR_RULES of the class that was asked to read"""
+    c = case["classes"][st["cls"]]
+    if st["via"] in MIXIN_VIAS:
+        if "rules" in st or not _cls_root(case, st["cls"])["mixin"]:
+            raise ValueError("ill-formed session: mixin read with explicit rules / of a class without the mixin")
+        rd = c["rules"]
+    else:
+        rd = st.get("rules", c["rules"])
+    return c["names"], c["nid"], [rd[n] for n in c["names"]]
+
+
+def _step_cfg(st):
+    # TableReader.iter_xls calls iter_table(worksheet, cls, cls.ATTR_RULES): default end rule, no ladder
+    if st["via"] in MIXIN_VIAS:
+        return "blank all", False
+    return st["stop"], bool(st["ladder"])
+
+
+def _cls_root(case, ci):
+    c = case["classes"][ci]
+    while c["base"] is not None:
+        c = case["classes"][c["base"]]
+    return c
+
+
+def _check_classes(case):
+    """the class records hold EFFECTIVE names / nid / rules; what is not in 'own' must equal the base's"""
+    for ci, c in enumerate(case["classes"]):
+        if c["base"] is None:
+            if not {"names", "nid"} <= set(c["own"]) or (c["mixin"] and "rules" not in c["own"]):
+                raise ValueError("ill-formed session: root class")
+            continue
+        if not 0 <= c["base"] < ci:
+            raise ValueError("ill-formed session: base index")
+        b = case["classes"][c["base"]]
+        for key in ("names", "nid", "rules"):
+            if key not in c["own"] and c[key] != b[key]:
+                raise ValueError(f"ill-formed session: class {ci} inherits {key} but differs")
+        if "rules" in c["own"] and not _cls_root(case, ci)["mixin"]:
+            raise ValueError("ill-formed session: ATTR_RULES on a class without the mixin")
+        if not set(c["names"]) <= set(c["rules"]):
+            raise ValueError("ill-formed session: attribute without rule")
+
+
+def _sess_reads(case):
+    return [st for st in case["steps"] if st["op"] == "read"]
+
+
+class _Session:
+    def __init__(self, xl, case):
+        self.xl = xl
+        self.case = case
+        self.convs = {}
+        self.rule_objs = {}
+        self.attr_rule_objs = {}
+        self.rrules = {}
+        self.sheets = {}
+        self.classes = []
+        for ci, c in enumerate(case["classes"]):
+            d = {}
+            if "names" in c["own"]:
+                d["_ATTRS"] = list(c["names"])
+            if "nid" in c["own"]:
+                d["_NUM_ID_ATTRS"] = c["nid"]
+            if "rules" in c["own"]:
+                d["ATTR_RULES"] = self.mk_rules(c["rules"], c.get("rev", False))
+            if c["base"] is None:
+                bases = (xl.XlsObject, xl.TableReader) if c["mixin"] else (xl.XlsObject,)
+            else:
+                bases = (self.classes[c["base"]],)
+            self.classes.append(type(f"XlC{ci}", bases, d))
+
+    def conv(self, cv):
+        key = repr(sorted(cv.items()))
+        if key not in self.convs:
+            self.convs[key] = _mk_conv(self.xl, cv)
+        return self.convs[key]
+
+    def mk_rules(self, rd, rev=False, as_objects=False):
+        xl = self.xl
+        rules = {}
+        names = list(rd)
+        if rev:
+            names.reverse()
+        for name in names:
+            ru = rd[name]
+            if ru["t"] == "plain":
+                cv = self.conv(ru["cv"])
+                spec = (ru["col"], cv, {"default_val": ru["def"]["v"]}) if "def" in ru else (ru["col"], cv)
+            elif ru["t"] == "ext":
+                form = ru.get("form", "tuple")
+                dv = ru["def"]["v"]
+                if form == "none":
+                    spec = None
+                elif form == "callable":
+                    spec = (None, None, {"default_val": (lambda dv=dv: list(dv) if isinstance(dv, list) else dv)})
+                else:
+                    spec = (None, None, {"default_val": dv})
+            else:
+                rkey = repr(("range", ru["dict"], sorted(ru["cv"].items())))
+                if rkey not in self.convs:
+                    self.convs[rkey] = (xl.CellRangeDict if ru["dict"] else xl.CellRangeSet)(self.conv(ru["cv"]))
+                rc = self.convs[rkey]
+                spec = ("*", rc, {"default_val": ru["def"]["v"]}) if "def" in ru else ("*", rc)
+            if as_objects and spec is not None:
+                okey = (name, repr(ru))
+                if okey not in self.attr_rule_objs:
+                    kw = spec[2] if len(spec) == 3 else {}
+                    self.attr_rule_objs[okey] = xl.XlsRecordAttrReadRules(name, spec[0], spec[1], **kw)
+                spec = self.attr_rule_objs[okey]
+            rules[name] = spec
+        return rules
+
+    def sheet(self, st):
+        """the worksheet object of a step: one object per 'ws' id; a later step with the same id and the same
+        dimensions EDITS the cells of that object in place (the sheet changed between two readings)"""
+        rows = st["rows"]
+        ws = self.sheets.get(st["ws"])
+        if ws is not None and [len(r) for r in ws._rows] == [len(r) for r in rows]:
+            for cells, vals in zip(ws._rows, rows):
+                for cell, v in zip(cells, vals):
+                    cell.value = v
+            return ws
+        ws = _Worksheet("sheet1", rows)
+        self.sheets[st["ws"]] = ws
+        return ws
+
+    def opener(self, st):
+        """thunk -> iterable of the objects of this read step"""
+        xl = self.xl
+        cls = self.classes[st["cls"]]
+        ws = self.sheet(st)
+        via = st["via"]
+        stop, ladder = _step_cfg(st)
+        if via == "mx_list":
+            return lambda: cls.read_list(ws)
+        if via == "mx_iter":
+            return lambda: cls.iter_xls(ws)
+        rd = st.get("rules", self.case["classes"][st["cls"]]["rules"])
+        rd = {n: rd[n] for n in rd}
+
+        def go():
+            if via == "ar":
+                rules = self.mk_rules(rd, st.get("rev", False), as_objects=True)
+            elif st.get("share"):
+                key = (repr(rd), bool(st.get("rev")))
+                if key not in self.rule_objs:
+                    self.rule_objs[key] = self.mk_rules(rd, st.get("rev", False))
+                rules = self.rule_objs[key]
+            else:
+                rules = self.mk_rules(rd, st.get("rev", False))
+            if via == "table":
+                return xl.read_table(ws, cls, rules, stop_on=stop, ladder_format=ladder)
+            if via == "rr":
+                key = (st["cls"], repr(rd))
+                if key not in self.rrules:
+                    self.rrules[key] = xl.XlsObjReadRules(cls, rules)
+                rr = self.rrules[key]
+                return (x for (x,) in xl.XlsTableReader(rr).iter_table(ws, stop_on=stop, ladder_format=ladder))
+            return xl.iter_table(ws, cls, rules, stop_on=stop, ladder_format=ladder)
+        return go
+
+    def map_call(self, st):
+        xl = self.xl
+        cls = self.classes[st["cls"]]
+        ws = self.sheet(st)
+        stop, ladder = _step_cfg(st)
+        if st["via"] in MIXIN_VIAS:
+            return lambda: cls.read_map(ws)
+        rd = st.get("rules", self.case["classes"][st["cls"]]["rules"])
+        rules = self.mk_rules({n: rd[n] for n in rd}, st.get("rev", False))
+        return lambda: xl.read_table_make_map(ws, cls, rules, stop_on=stop, ladder_format=ladder)
+
+
+def _exc(e):
+    if type(e).__name__ == "Hang":
+        raise e
+    return SX.exc_name(e)
+
+
+def _apply_mut(o, name, inner, m):
+    """the caller edits the value it has been given (mirror of Session.mut_value)"""
+    v = getattr(o, name, None)
+    if inner is not None:
+        if not isinstance(v, dict) or inner not in v:
+            return
+        v = v[inner]
+        if isinstance(v, list):
+            v.append(m)
+        elif isinstance(v, set):
+            v.add(m)
+        return
+    if isinstance(v, list):
+        v.append(m)
+    elif isinstance(v, set):
+        v.add(m)
+    elif isinstance(v, dict):
+        v[m] = m
+
+
+def _run_session(xl, case):
+    _check_classes(case)
+    S = _Session(xl, case)
+    steps = case["steps"]
+    recs = []
+
+    def new_rec(st):
+        names, _nid, _rules = _step_rules(case, st)
+        rec = {"st": st, "names": names, "objs": [], "items": [], "err": None, "cls_ok": True, "map": None}
+        recs.append(rec)
+        return rec
+
+    def take(rec, o):
+        rec["objs"].append(o)
+        if o is not None and type(o) is not S.classes[rec["st"]["cls"]]:
+            rec["cls_ok"] = False
+        rec["items"].append(None if o is None else _obs_obj(o, rec["names"], rec["st"]["qkeys"]))
+
+    def run_group(group):
+        its = []
+        for k, rec in enumerate(group):
+            if k and rec["st"]["ws"] == group[0]["st"]["ws"] and rec["st"]["rows"] != group[0]["st"]["rows"]:
+                S.sheets.pop(rec["st"]["ws"], None)     # the first generator keeps reading its own worksheet object
+            try:
+                its.append(iter(S.opener(rec["st"])()))
+            except BaseException as e:  # noqa
+                rec["err"] = _exc(e)
+                its.append(None)
+        alive = [it is not None for it in its]
+        while any(alive):
+            for k, rec in enumerate(group):
+                if not alive[k]:
+                    continue
+                try:
+                    o = next(its[k])
+                except StopIteration:
+                    alive[k] = False
+                except BaseException as e:  # noqa
+                    rec["err"] = _exc(e)
+                    alive[k] = False
+                else:
+                    take(rec, o)
+        for rec in group:
+            if rec["st"]["via"] in WHOLE_VIAS and rec["err"] is not None:
+                rec["objs"], rec["items"] = [], []
+            if rec["st"].get("also_map"):
+                rec["map"] = _map_check(S, rec)
+
+    i = 0
+    while i < len(steps):
+        st = steps[i]
+        if st["op"] == "mut":
+            if st["r"] < len(recs):
+                rec = recs[st["r"]]
+                if st["j"] < len(rec["objs"]) and rec["objs"][st["j"]] is not None and st["a"] < len(rec["names"]):
+                    _apply_mut(rec["objs"][st["j"]], rec["names"][st["a"]], st.get("inner"), st["m"])
+            i += 1
+            continue
+        group = [new_rec(st)]
+        if st.get("il") and i + 1 < len(steps) and steps[i + 1]["op"] == "read":
+            group.append(new_rec(steps[i + 1]))     # two generators advanced in turn
+            i += 1
+        run_group(group)
+        i += 1
+    reads = []
+    for rec in recs:
+        end = [None if o is None else _obs_obj(o, rec["names"], rec["st"]["qkeys"]) for o in rec["objs"]]
+        reads.append({"items": rec["items"], "err": rec["err"], "end": end, "cls_ok": rec["cls_ok"], "map": rec["map"]})
+    return {"reads": reads}
+
+
+def _map_check(S, rec):
+    """read_map / read_table_make_map of the same sheet must be make_objects_map of the objects of the reading"""
+    st = rec["st"]
+    cls = S.classes[st["cls"]]
+    names, qk = rec["names"], st["qkeys"]
+    class ReadFailed(Exception):
+        pass
+
+    def objs_then_error():
+        yield from rec["objs"]
+        if rec["err"] is not None:
+            raise ReadFailed()
+    if rec["err"] is not None and st["via"] in WHOLE_VIAS:
+        return None         # the objects before the exception were not seen
+    try:
+        want = ["ok", cls.make_objects_map(objs_then_error())]
+    except ReadFailed:
+        want = ["err", rec["err"]]
+    except BaseException as e:  # noqa
+        want = ["err", _exc(e)]
+    try:
+        got = ["ok", S.map_call(st)()]
+    except BaseException as e:  # noqa
+        got = ["err", _exc(e)]
+    if want[0] != got[0]:
+        return f"list reading then make_objects_map: {want[0]} {want[1] if want[0] == 'err' else ''}; map reading: {got[0]} {got[1] if got[0] == 'err' else ''}"
+    if want[0] == "err":
+        return None if want[1] == got[1] else f"map reading raises {got[1]}, expected {want[1]}"
+    w, g = want[1], got[1]
+    if not isinstance(g, dict):
+        return f"map reading returned {type(g).__name__}"
+    if [_canon_key(k) for k in w] != [_canon_key(k) for k in g]:
+        return f"keys {list(g)!r}, expected {list(w)!r}"
+    for k in w:
+        if type(g[k]) is not cls:
+            return f"value for key {k!r} is a {type(g[k]).__name__}"
+        a, b = _obs_obj(w[k], names, qk), _obs_obj(g[k], names, qk)
+        if a != b:
+            return f"object for key {k!r} differs: {b!r}, expected {a!r}"
+    # the caller edits every value of the map it has been given: a later reading must not see these edits
+    for k in g:
+        for name in names:
+            _apply_mut(g[k], name, None, MARK + "map")
+            v = getattr(g[k], name, None)
+            if isinstance(v, dict):
+                for kk in list(v):
+                    _apply_mut(g[k], name, kk, MARK + "map")
+    return None
+
+
+def _canon_key(k):
+    if isinstance(k, tuple):
+        return ["t", [_canon_simple(x) for x in k]]
+    return _canon_simple(k)
+
+
+# ---- model side of a session
+def _coq_session(case):
+    _check_classes(case)
+    ops = []
+    binds = {}      # repeated sheets / sheet rows / rule sets are written once (let ... in): the terms stay small
+
+    def share(text, prefix):
+        if len(text) < 40:
+            return text
+        if text not in binds:
+            binds[text] = f"{prefix}{len(binds)}"
+        return binds[text]
+    for st in case["steps"]:
+        if st["op"] == "read":
+            _names, nid, rules = _step_rules(case, st)
+            stop, ladder = _step_cfg(st)
+            rows = "[" + "; ".join(share(_c_cvals(r), "w") for r in st["rows"]) + "]" if st["rows"] else "(@nil (list cval))"
+            rl = "[" + "; ".join(share("(" + _c_rule(r) + ")", "u") for r in rules) + "]" if rules else "(@nil rule)"
+            ops.append(f"ORead (mkConfig {share(rl, 'l')} {SX.cnat(nid)} {SX.cstr(stop)} {SX.cbool(ladder)}) {share(rows, 's')} "
+                       f"{share(_c_strs(st['qkeys']), 'q')} {SX.cbool(st['via'] in WHOLE_VIAS)}")
+        else:
+            inner = "None" if st.get("inner") is None else f"(Some {SX.cstr(st['inner'])})"
+            ops.append(f"OMut {SX.cnat(st['r'])} {SX.cnat(st['j'])} {SX.cnat(st['a'])} {inner} {SX.cstr(st['m'])}")
+    body = "Session " + ("[" + "; ".join(ops) + "]" if ops else "(@nil op)")
+    lets = "".join(f"let {name} := {text} in " for text, name in binds.items())
+    return f"({lets}{body})" if lets else body
+
+
+def _expected_session(case, obs):
+    out = []
+    for st, rd in zip(_sess_reads(case), obs["reads"]):
+        _names, _nid, rules = _step_rules(case, st)
+        items, e = full_sx({"rules": rules}, {"items": rd["end"], "err": rd["err"]})
+        hs = [[0] if not it else hash_sx(it[0]) for it in items]
+        if not rd["cls_ok"]:
+            hs = [-1 if not isinstance(h, list) else h for h in hs]       # objects of another class: never the model's
+        out.append([hs, e])
+    return SX.dumps(out)
+
+
+# ---- the statement on a session, independently of the model
+def _mut_canon(v, inner, m):
+    """the python effect of _apply_mut on a canonical value"""
+    t = v[0]
+    if inner is not None:
+        if t != "d":
+            return v
+        return ["d", [[k, _mut_canon(x, None, m) if k == inner and x[0] in ("l", "S") else x] for k, x in v[1]]]
+    if t == "l":
+        return ["l", v[1] + [m]]
+    if t == "S":
+        return ["S", sorted(set(v[1]) | {m})]
+    if t == "d":
+        kv = [[k, x] for k, x in v[1] if k != m] + [[m, ["s", m]]]
+        return ["d", sorted(kv, key=lambda e: e[0])]
+    return v
+
+
+def _oracle_session(case, obs):
+    out = []
+    reads = _sess_reads(case)
+    muts = {}
+    ridx = -1
+    for st in case["steps"]:
+        if st["op"] == "read":
+            ridx += 1
+        elif st["r"] <= ridx:
+            muts.setdefault((st["r"], st["j"], st["a"]), []).append((st.get("inner"), st["m"]))
+    for r, (st, rd) in enumerate(zip(reads, obs["reads"])):
+        names, nid, rules = _step_rules(case, st)
+        stop, ladder = _step_cfg(st)
+        tag = f"reading {r} ({st['via']}, class {st['cls']})"
+        # (a) the property, on what the reading produced (as observed when it was produced)
+        if not (st["via"] in WHOLE_VIAS and rd["err"] is not None):
+            pc = {"k": "read", "rows": st["rows"], "rules": rules, "nid": nid, "stop": stop, "ladder": ladder,
+                  "qkeys": st["qkeys"]}
+            for sig, msg in oracle(pc, {"items": rd["items"], "err": rd["err"]}):
+                out.append((sig, f"{tag}: {msg}"))
+        # (b) objects of the class that was asked to read
+        if not rd["cls_ok"]:
+            out.append(("object-class", f"{tag}: produced objects are not instances of the class that was read"))
+        # (c) the map reading is the map of the list reading
+        if rd["map"]:
+            out.append(("map-reading", f"{tag}: {rd['map']}"))
+        # (d) the values still are the conversions of the source cells after the caller edited OTHER values
+        for j, (it0, it1) in enumerate(zip(rd["items"], rd["end"])):
+            if it0 is None or it1 is None:
+                if it0 is not it1:
+                    out.append(("shared-value", f"{tag}: object {j} appeared/disappeared"))
+                continue
+            for a, (a0, a1) in enumerate(zip(it0["attrs"], it1["attrs"])):
+                want = a0["v"]
+                for inner, m in muts.get((r, j, a), []):
+                    want = _mut_canon(want, inner, m)
+                if a1["v"] != want:
+                    out.append(("shared-value",
+                                f"{tag}: object {j} attribute {names[a]} read {a0['v']!r}; at the end of the session it is "
+                                f"{a1['v']!r}, the caller's own edits of this value give {want!r} (a value shared with "
+                                f"another object or another reading?)"))
+                if (a0["o"], a0["ko"], a0["kn"]) != (a1["o"], a1["ko"], a1["kn"]):
+                    out.append(("shared-origin", f"{tag}: object {j} attribute {names[a]}: get_attr_origin changed during the session"))
+    seen = set()
+    uniq = []
+    for sig, msg in out:
+        if sig not in seen:
+            seen.add(sig)
+            uniq.append((sig, msg[:1500]))
+    return uniq
+
+
+def _shrink_session(case):
+    steps = case["steps"]
+    # drop one modification
+    for i in range(len(steps) - 1, -1, -1):
+        if steps[i]["op"] == "mut":
+            c = dict(case)
+            c["steps"] = steps[:i] + steps[i + 1:]
+            yield c
+    # drop one reading (with the modifications of its objects)
+    ridx = [i for i, st in enumerate(steps) if st["op"] == "read"]
+    for k in range(len(ridx) - 1, -1, -1):
+        new = []
+        for i, st in enumerate(steps):
+            if i == ridx[k]:
+                continue
+            if st["op"] == "mut":
+                if st["r"] == k:
+                    continue
+                if st["r"] > k:
+                    st = dict(st)
+                    st["r"] -= 1
+            elif i + 1 == ridx[k] and st.get("il"):
+                st = dict(st)
+                st.pop("il")
+            new.append(st)
+        c = dict(case)
+        c["steps"] = new
+        yield c
+    # plainer entry points
+    for i, st in enumerate(steps):
+        if st["op"] == "read":
+            for key in ("il", "also_map", "share", "rev"):
+                if st.get(key):
+                    st2 = dict(st)
+                    st2.pop(key)
+                    c = dict(case)
+                    c["steps"] = steps[:i] + [st2] + steps[i + 1:]
+                    yield c
+    # drop a sheet row of one reading
+    for i, st in enumerate(steps):
+        if st["op"] == "read":
+            for r in range(len(st["rows"]) - 1, 0, -1):
+                st2 = dict(st)
+                st2["rows"] = st["rows"][:r] + st["rows"][r + 1:]
+                c = dict(case)
+                c["steps"] = steps[:i] + [st2] + steps[i + 1:]
+                yield c
+
+
+# ---- generator of sessions
+def _title_idx(rows):
+    return next((i for i, r in enumerate(rows) if not all(_is_blank(v) for v in r)), None)
+
+
+def _mutables(rules, titles):
+    """(attribute index, inner key or None) of the values a caller can edit in place"""
+    out = []
+    run = [titles[c] for c in _expected_run(titles, rules)]
+    for i, ru in enumerate(rules):
+        if ru["t"] == "plain" and ru["cv"]["k"] in ("list", "set"):
+            out.append((i, None))
+        elif ru["t"] == "ext" and isinstance(ru["def"]["v"], list):
+            out.append((i, None))
+        elif ru["t"] == "range":
+            out.append((i, None))
+            if ru["dict"] and ru["cv"]["k"] in ("list", "set"):
+                out += [(i, k) for k in run]
+    return out
+
+
+_KIND_SWAP = {"list": ["set", "str"], "set": ["list", "str"], "str": ["list", "set"], "int": ["str"], "bool": ["str", "int"]}
+
+
+def _var_rules(rng, rules, titles):
+    """a derived class's / another call's rule set for the same attributes: other converters, other columns, other defaults"""
+    new = [dict(r, cv=dict(r["cv"])) if "cv" in r else dict(r) for r in rules]
+    changed = False
+    present = [t for t in titles if t]
+    for i, ru in enumerate(new):
+        r = rng.random()
+        if ru["t"] == "plain":
+            if r < 0.45:
+                k = rng.choice(_KIND_SWAP[ru["cv"]["k"]])
+                ru["cv"] = {key: v for key, v in ru["cv"].items() if key == "none"}
+                ru["cv"]["k"] = k
+                changed = True
+            elif r < 0.65 and present:
+                col = rng.choice(present)
+                if col != ru["col"]:
+                    ru["col"] = col
+                    ru["cv"] = {"k": rng.choice(["str", "str", "list", "set"])}
+                    changed = True
+            elif r < 0.75 and i > 0:
+                if "def" in ru:
+                    del ru["def"]
+                else:
+                    ru["def"] = _default(rng)
+                changed = True
+        elif ru["t"] == "range" and r < 0.5:
+            ru["dict"] = not ru["dict"]
+            changed = True
+        elif ru["t"] == "ext" and r < 0.3:
+            ru["def"] = {"v": rng.choice([None, 3, "other"])}
+            if ru.get("form") == "none":
+                ru["form"] = "tuple"
+            changed = True
+    if not changed:
+        for ru in new:
+            if ru["t"] == "plain":
+                k = rng.choice(_KIND_SWAP[ru["cv"]["k"]])
+                ru["cv"] = {"k": k}
+                break
+    return new
+
+
+def _dup_cells(rng, rows):
+    """repeated cell texts: a data row is repeated, cells are copied down a column"""
+    rows = [list(r) for r in rows]
+    t = _title_idx(rows)
+    if t is None or t + 1 >= len(rows):
+        return rows
+    if rng.random() < 0.7:
+        i = rng.randint(t + 1, min(len(rows) - 1, t + 3))
+        rows.insert(i + 1, list(rows[i]))
+    for _ in range(rng.choice([0, 1, 2, 4])):
+        i, j = rng.randint(t + 1, len(rows) - 1), rng.randint(t + 1, len(rows) - 1)
+        c = rng.randrange(len(rows[i])) if rows[i] else 0
+        if i != j and c < len(rows[j]) and c < len(rows[i]):
+            rows[j][c] = rows[i][c]
+    return rows
+
+
+def _edit_cells(rng, rows):
+    """the same sheet, some data cells changed (same dimensions)"""
+    rows = [list(r) for r in rows]
+    t = _title_idx(rows)
+    if t is None or t + 1 >= len(rows):
+        return rows
+    for _ in range(rng.randint(1, 4)):
+        i, j = rng.randint(t + 1, len(rows) - 1), rng.randint(t + 1, len(rows) - 1)
+        if not rows[i]:
+            continue
+        c = rng.randrange(len(rows[i]))
+        r = rng.random()
+        if r < 0.5 and c < len(rows[j]):
+            rows[i][c], rows[j][c] = rows[j][c], rows[i][c]
+        elif r < 0.8 and isinstance(rows[i][c], str):
+            rows[i][c] = rows[i][c] + rng.choice([",zz", "\nq", " "])
+        else:
+            rows[i][c] = rng.choice([None, "e", 4])
+    return rows
+
+
+def _perm_cols(rng, rows):
+    """the same table with its columns in another order"""
+    w = len(rows[0]) if rows else 0
+    if any(len(r) != w for r in rows) or w < 2:
+        return [list(r) for r in rows]
+    perm = list(range(w))
+    rng.shuffle(perm)
+    return [[r[p] for p in perm] for r in rows]
+
+
+def _titles_of(rows):
+    t = _title_idx(rows)
+    return [] if t is None else [_title(v) for v in rows[t]]
+
+
+def gen_session_case(rng, flavour):
+    hier = flavour == "hier"
+    force = {}
+    if hier:
+        force.update(ladder=False, stop="blank all")
+    if rng.random() < 0.85:
+        force["kinds"] = ["list", "set", "list", "set", "str", "int", "bool"]
+        force["rkinds"] = ["bool", "list", "set", "str", "list", "int"]
+    base = None
+    for _ in range(30):
+        base = gen_sheet_case(rng, force=force)
+        for ru in base["rules"]:
+            if ru["t"] == "ext" and ru.get("form") == "callable" and rng.random() < 0.6:
+                ru["def"] = {"v": rng.choice([[], ["d"], ["p", "q"]])}
+        if not base["misuse"] and _mutables(base["rules"], _titles_of(base["rows"])) and len(base["rows"]) >= 3:
+            break
+    if rng.random() < 0.6:
+        # hashable id attributes (make_objects_map works)
+        for ru in base["rules"][:max(1, base["nid"])]:
+            if ru["t"] == "plain" and ru["cv"]["k"] in ("list", "set"):
+                ru["cv"] = {"k": "str"}
+    if rng.random() < 0.3:
+        # list / set converters for which a blank cell is not None (none_values without None): [] / set() values
+        for ru in base["rules"]:
+            if ru["t"] in ("plain", "range") and ru["cv"]["k"] in ("list", "set") and rng.random() < 0.6:
+                ru["cv"]["none"] = rng.choice([[], ["-"], [""]])
+        t = _title_idx(base["rows"])
+        if t is not None:
+            for row in base["rows"][t + 1:]:
+                for c in range(len(row)):
+                    if rng.random() < 0.2:
+                        row[c] = None
+    map_all = rng.random() < 0.3
+    n = len(base["rules"])
+    names0 = [f"a{i}" for i in range(n)]
+    rows0 = _dup_cells(rng, base["rows"])
+    # sheets: ws id -> record; several steps may name the same ws id (same object, edited in place when the dimensions agree)
+    sheets = [{"ws": 0, "rows": rows0, "qkeys": base["qkeys"], "stop": base["stop"], "ladder": base["ladder"]}]
+    classes = [{"base": None, "mixin": hier or rng.random() < 0.35, "names": names0, "nid": base["nid"],
+                "rules": dict(zip(names0, base["rules"])), "own": ["names", "nid", "rules"], "rev": rng.random() < 0.3}]
+    if not classes[0]["mixin"]:
+        classes[0]["own"] = ["names", "nid"]
+    titles0 = _titles_of(rows0)
+    for _ in range(rng.choice([1, 2, 2, 3]) if hier else rng.choice([0, 0, 1, 2])):
+        b = rng.randrange(len(classes))
+        bc = classes[b]
+        c = {"base": b, "mixin": bc["mixin"], "names": list(bc["names"]), "nid": bc["nid"], "rules": dict(bc["rules"]),
+             "own": [], "rev": rng.random() < 0.3}
+        what = rng.choice(["rules", "rules", "rules", "attrs", "nid", "none", "rules+attrs", "rules+nid"])
+        if "rules" in what and _cls_root({"classes": classes + [c]}, len(classes))["mixin"]:
+            ordered = [c["rules"][nm] for nm in c["names"]]
+            extra = {nm: ru for nm, ru in c["rules"].items() if nm not in c["names"]}
+            c["rules"] = dict(zip(c["names"], _var_rules(rng, ordered, titles0)))
+            c["rules"].update(extra)
+            c["own"].append("rules")
+        if "attrs" in what and len(c["names"]) >= 2:
+            # another order / a subset of the attributes; the first one stays a cell of a present column
+            first_ok = [nm for nm in c["names"] if c["rules"][nm]["t"] == "plain" and c["rules"][nm]["col"] in titles0]
+            if first_ok:
+                head = rng.choice(first_ok)
+                rest = [nm for nm in c["names"] if nm != head]
+                rng.shuffle(rest)
+                if rng.random() < 0.4:
+                    rest = rest[:rng.randint(0, len(rest))]
+                c["names"] = [head] + rest
+                c["nid"] = min(c["nid"], len(c["names"]))
+                c["own"] += ["names", "nid"]
+        if "nid" in what and "nid" not in c["own"]:
+            c["nid"] = rng.choice([x for x in range(0, min(3, len(c["names"])) + 1) if x != c["nid"]] or [c["nid"]])
+            c["own"].append("nid")
+        classes.append(c)
+    if rng.random() < (0.5 if hier else 0.25):
+        # an unrelated class with its own sheet
+        other = gen_sheet_case(rng, force=force)
+        if not other["misuse"]:
+            nm = [f"b{i}" for i in range(len(other["rules"]))]
+            mixin = hier or rng.random() < 0.35
+            classes.append({"base": None, "mixin": mixin, "names": nm, "nid": other["nid"], "rules": dict(zip(nm, other["rules"])),
+                            "own": ["names", "nid", "rules"] if mixin else ["names", "nid"], "rev": False})
+            sheets.append({"ws": 1, "rows": _dup_cells(rng, other["rows"]), "qkeys": other["qkeys"], "stop": other["stop"],
+                           "ladder": other["ladder"], "root": len(classes) - 1})
+    steps = []
+    counter = [0]
+    read_info = []      # per read: (rules, titles, n data rows)
+
+    def add_muts(r, density):
+        rules, titles, nrows = read_info[r]
+        targets = [(j, a, inner) for j in range(nrows) for a, inner in _mutables(rules, titles)]
+        if not targets:
+            return
+        if density < 1.0:
+            targets = [t for t in targets if rng.random() < density] or [rng.choice(targets)]
+        rng.shuffle(targets)
+        for j, a, inner in targets[:24]:
+            counter[0] += 1
+            st = {"op": "mut", "r": r, "j": j, "a": a, "m": f"{MARK}{counter[0]}"}
+            if inner is not None:
+                st["inner"] = inner
+            steps.append(st)
+
+    cur = dict(sheets[0])
+    n_reads = rng.choice([2, 3, 3, 4, 5] if hier else [2, 2, 3, 4])
+    order_bias = rng.choice(["base-first", "derived-first", "random"])
+    pair_next = False
+    for k in range(n_reads):
+        # which class
+        roots0 = [ci for ci in range(len(classes)) if _cls_root({"classes": classes}, ci) is classes[0]]
+        others = [ci for ci in range(len(classes)) if ci not in roots0]
+        if others and rng.random() < 0.3 and not pair_next:
+            ci = rng.choice(others)
+            sh = dict(sheets[1])
+        else:
+            if k == 0 and order_bias == "base-first":
+                ci = 0
+            elif k == 0 and order_bias == "derived-first" and len(roots0) > 1:
+                ci = rng.choice(roots0[1:])
+            else:
+                ci = rng.choice(roots0)
+            # which sheet: the current one again, edited in place, re-ordered (same object or a new one)
+            r = rng.random()
+            if pair_next:
+                r = rng.choice([0.5, 0.5, 0.1])     # the partner of a ladder reading in progress: the table with other cells
+            if k == 0 or r < 0.4:
+                sh = dict(cur)
+            elif r < 0.6:
+                sh = dict(cur, rows=_edit_cells(rng, cur["rows"]))
+            elif r < 0.8:
+                sh = dict(cur, rows=_perm_cols(rng, cur["rows"]))
+            else:
+                sh = dict(cur, rows=_perm_cols(rng, cur["rows"]), ws=2 + k)
+            cur = dict(sh)
+        c = classes[ci]
+        mixin = _cls_root({"classes": classes}, ci)["mixin"]
+        st = {"op": "read", "cls": ci, "ws": sh["ws"], "rows": sh["rows"], "qkeys": sh["qkeys"],
+              "stop": sh["stop"], "ladder": sh["ladder"]}
+        if mixin and rng.random() < (0.8 if hier else 0.5) and not pair_next:
+            st["via"] = rng.choice(MIXIN_VIAS)
+        else:
+            st["via"] = rng.choice(["iter", "iter", "table", "rr", "ar"] if not pair_next else ["iter", "rr", "ar"])
+            if rng.random() < 0.3:
+                ordered = [c["rules"][nm] for nm in c["names"]]
+                st["rules"] = dict(c["rules"])
+                st["rules"].update(zip(c["names"], _var_rules(rng, ordered, _titles_of(sh["rows"]))))
+            if rng.random() < 0.5:
+                st["share"] = True
+            if rng.random() < 0.2:
+                st["rev"] = True
+        if map_all or rng.random() < 0.1:
+            st["also_map"] = True
+        if k + 1 < n_reads and st["via"] not in WHOLE_VIAS and rng.random() < (0.45 if _step_cfg(st)[1] else 0.2):
+            st["il"] = True
+        pair_next = bool(st.get("il")) and _step_cfg(st)[1]
+        steps.append(st)
+        probe = {"classes": classes}
+        _nm, _nid, rules = _step_rules(probe, st)
+        t = _title_idx(sh["rows"])
+        read_info.append((rules, _titles_of(sh["rows"]), 0 if t is None else min(10, len(sh["rows"]) - t - 1)))
+        if st.get("il"):
+            continue        # the partner is read before anything is edited
+        if rng.random() < 0.85:
+            add_muts(len(read_info) - 1, rng.choice([1.0, 1.0, 0.5, 0.2]))
+            if len(read_info) >= 2 and rng.random() < 0.4:
+                add_muts(rng.randrange(len(read_info) - 1), 0.3)
+    return {"k": "sess", "flavour": flavour, "classes": classes, "steps": steps}
+
+
 TECHNIQUE = ("Coq proofs (structural induction over rows / columns, invariants of the row loop, refinement of the ladder "
              "loop to a fill-down specification) on a hand-written Gallina model + per-run correspondence check "
              "(vm_compute vs implementation on generated worksheets) + constants regenerated from the source")
@@ -1299,6 +2141,12 @@ LEVEL_TEXT = ("Full (model level, all sheets / rule sets, unbounded rows and col
               "('blank first' when the first sheet column is not part of the ladder).  Refuted: ladder_equiv_statement (both end "
               "rules) by ladder_blank_first_refuted -- open finding ladder-blank-first; what does hold there is ladder_prefix (the "
               "ladder reading is a prefix of the filled-in reading and ends, without exception, at a row whose first cell is blank).  "
+              "Sessions: session_local (at the end of ANY sequence of readings and caller edits, every reading still has the "
+              "exception, the items, the origins and every attribute value the caller did not edit itself that reading its sheet with "
+              "its rules alone gives), session_no_edits, session_edit_applied -- theorems about the model, in which values are fresh by "
+              "construction; that ak/xlsread.py has no state between readings and shares no mutable value between objects / readings / "
+              "class hierarchies is what the correspondence check on session cases compares (every object re-observed at the end of "
+              "the session) and what the oracle signatures shared-value, shared-origin, object-class, map-reading state directly.  "
               "Tested only (correspondence + oracle, no theorem): that a reading raises only where a declared rule cannot be applied "
               "(oracle signature unexpected-error), that a row yields None only when its id values are all None (spurious-none), the "
               "incl_ws prefix (not modelled).  Theorems are about the Gallina model; its agreement with ak/xlsread.py is checked per "
